@@ -27,12 +27,31 @@ impl Tier {
             Tier::Thorough => "thorough",
         }
     }
-    /// pick a budget by tier
-    pub fn pick<T>(self, quick: T, thorough: T) -> T {
-        match self {
+    /// pick a budget by tier (PV_BUDGET_DIV=n divides it: used by the coverage measurement,
+    /// which needs reach, not volume)
+    pub fn pick<T: Budget>(self, quick: T, thorough: T) -> T {
+        let v = match self {
             Tier::Quick => quick,
             Tier::Thorough => thorough,
+        };
+        match std::env::var("PV_BUDGET_DIV").ok().and_then(|s| s.parse::<u64>().ok()) {
+            Some(n) if n > 1 => v.div(n),
+            _ => v,
         }
+    }
+}
+
+pub trait Budget {
+    fn div(self, n: u64) -> Self;
+}
+impl Budget for u64 {
+    fn div(self, n: u64) -> u64 {
+        (self / n).max(1)
+    }
+}
+impl Budget for usize {
+    fn div(self, n: u64) -> usize {
+        (self / n as usize).max(1)
     }
 }
 
